@@ -271,6 +271,7 @@ type assembler struct {
 	mu      sync.Mutex
 	streams []*stream
 	log     *elog
+	onClear func() // one-shot: called from the next ClearRequest (manager goroutine)
 }
 
 func (a *assembler) NewStream(ctx context.Context, p peer.ID, id graphsync.RequestID, sub notifications.Subscriber) responseassembler.ResponseStream {
@@ -320,7 +321,16 @@ func (s *stream) Transaction(t responseassembler.Transaction) error {
 func (s *stream) DedupKey(string)          {}
 func (s *stream) IgnoreBlocks([]ipld.Link) {}
 func (s *stream) SkipFirstBlocks(int64)    {}
-func (s *stream) ClearRequest()            { s.tx("clr") }
+func (s *stream) ClearRequest() {
+	s.tx("clr")
+	s.asm.mu.Lock()
+	f := s.asm.onClear
+	s.asm.onClear = nil
+	s.asm.mu.Unlock()
+	if f != nil {
+		f() // runs on the manager's goroutine: what it puts into the mailbox is handled right after this message
+	}
+}
 
 type rbuilder struct{ s *stream }
 
@@ -642,6 +652,27 @@ func parseTok(t string) (reqTok, bool) {
 	return reqTok{}, false
 }
 
+// buildReqs turns request tokens into wire requests
+func buildReqs(toks []string) ([]gsmsg.GraphSyncRequest, bool) {
+	var reqs []gsmsg.GraphSyncRequest
+	for _, t := range toks {
+		rt, ok := parseTok(t)
+		if !ok {
+			return nil, false
+		}
+		switch rt.typ {
+		case "n":
+			script := graphsync.ExtensionData{Name: extScript, Data: basicnode.NewString(rt.rh + ":" + rt.bh)}
+			reqs = append(reqs, gsmsg.NewRequest(reqID(rt.id), roots[rt.total], selAll, graphsync.Priority(0), script))
+		case "c":
+			reqs = append(reqs, gsmsg.NewCancelRequest(reqID(rt.id)))
+		case "u":
+			reqs = append(reqs, gsmsg.NewUpdateRequest(reqID(rt.id), graphsync.ExtensionData{Name: extUpd, Data: basicnode.NewString(rt.uh)}))
+		}
+	}
+	return reqs, true
+}
+
 func (w *world) do(op []string) string {
 	num := func(i int) (int, bool) {
 		if i >= len(op) {
@@ -671,21 +702,9 @@ func (w *world) do(op []string) string {
 		if !ok || q >= nPeers {
 			return "bad-op"
 		}
-		var reqs []gsmsg.GraphSyncRequest
-		for _, t := range op[2:] {
-			rt, ok := parseTok(t)
-			if !ok {
-				return "bad-op"
-			}
-			switch rt.typ {
-			case "n":
-				script := graphsync.ExtensionData{Name: extScript, Data: basicnode.NewString(rt.rh + ":" + rt.bh)}
-				reqs = append(reqs, gsmsg.NewRequest(reqID(rt.id), roots[rt.total], selAll, graphsync.Priority(0), script))
-			case "c":
-				reqs = append(reqs, gsmsg.NewCancelRequest(reqID(rt.id)))
-			case "u":
-				reqs = append(reqs, gsmsg.NewUpdateRequest(reqID(rt.id), graphsync.ExtensionData{Name: extUpd, Data: basicnode.NewString(rt.uh)}))
-			}
+		reqs, ok := buildReqs(op[2:])
+		if !ok {
+			return "bad-op"
 		}
 		w.rm.ProcessRequests(w.ctx, pid(q), reqs)
 		return "ok"
@@ -753,11 +772,23 @@ func (w *world) do(op []string) string {
 			return apiRes(w.rm.CancelResponse(w.ctx, reqID(id)))
 		}
 		return apiRes(w.rm.UpdateResponse(w.ctx, reqID(id), extOut))
-	case "sent", "neterr":
+	case "sent", "neterr", "neterrw":
 		p, ok1 := num(1)
 		j, ok2 := num(2)
-		if !ok1 || !ok2 || len(op) != 3 {
+		if !ok1 || !ok2 || (op[0] != "neterrw" && len(op) != 3) {
 			return "bad-op"
+		}
+		var inject func()
+		if op[0] == "neterrw" {
+			q, ok := num(3)
+			if !ok || q >= nPeers {
+				return "bad-op"
+			}
+			reqs, ok := buildReqs(op[4:])
+			if !ok {
+				return "bad-op"
+			}
+			inject = func() { w.rm.ProcessRequests(w.ctx, pid(q), reqs) }
 		}
 		s := w.asm.streamOf(p, j)
 		if s == nil {
@@ -766,16 +797,25 @@ func (w *world) do(op []string) string {
 		w.asm.mu.Lock()
 		code := s.finCode
 		s.finCode = 0
+		w.asm.onClear = inject
 		w.asm.mu.Unlock()
 		md := messagequeue.Metadata{ResponseCodes: map[graphsync.RequestID]graphsync.ResponseStatusCode{}}
 		if code != 0 {
 			md.ResponseCodes[reqID(s.id)] = code
 		}
 		e := messagequeue.Event{Name: messagequeue.Sent, Metadata: md}
-		if op[0] == "neterr" {
+		if op[0] != "sent" {
 			e = messagequeue.Event{Name: messagequeue.Error, Err: errNet, Metadata: md}
 		}
 		s.sub.OnNext(notifications.Topic(0), e)
+		// the message of the other connection did not get in between (no ClearRequest): it arrives now
+		w.asm.mu.Lock()
+		late := w.asm.onClear
+		w.asm.onClear = nil
+		w.asm.mu.Unlock()
+		if late != nil {
+			late()
+		}
 		return "ok"
 	}
 	return "bad-op"
@@ -921,7 +961,7 @@ func Run(cases []reg.Case, out *reg.Out) {
 // opPeer: the peer an op belongs to (for msg: the sender; local API ops: owner of the id before the op)
 func opPeer(op []string, owner map[int]int) int {
 	switch op[0] {
-	case "msg", "start", "step", "sent", "neterr":
+	case "msg", "start", "step", "sent", "neterr", "neterrw":
 		if len(op) > 1 {
 			if v, err := strconv.Atoi(op[1]); err == nil {
 				return v
@@ -1003,6 +1043,7 @@ func runCase(c reg.Case, out *reg.Out) {
 			break
 		}
 	}
+	lateCloseOracle(c, full, out)
 	// (b) differential: delete the foreign requests aimed at peer P's responses
 	ps := make([]int, 0)
 	for p := range victims {
@@ -1051,6 +1092,47 @@ func runCase(c reg.Case, out *reg.Out) {
 				}
 				out.Fail(cls, "peer %d: op %d `%s` observes [%s] but [%s] when the other peers' requests for its IDs are deleted", p, i, strings.Join(c.Ops[i], " "), a, b)
 				break
+			}
+		}
+	}
+}
+
+// lateCloseOracle: a network-error notification for peer p's response is two separate calls into the
+// manager; whether another peer's message is handled between the two or after both must make no
+// difference to that peer (and to everybody else): compare with the history in which it comes after.
+func lateCloseOracle(c reg.Case, full []stepInfo, out *reg.Out) {
+	for i, op := range c.Ops {
+		if op[0] != "neterrw" || full[i].o.res == "bad-op" || len(op) < 5 {
+			continue
+		}
+		out.Cov("oracle.late-close-runs")
+		var ops2 [][]string
+		ops2 = append(ops2, c.Ops[:i]...)
+		ops2 = append(ops2, []string{"neterr", op[1], op[2]}, append([]string{"msg", op[3]}, op[4:]...))
+		ops2 = append(ops2, c.Ops[i+1:]...)
+		ref, _ := runHistory(ops2)
+		for p := 0; p < nPeers; p++ {
+			collect := func(steps []stepInfo) string {
+				var parts []string
+				for _, si := range steps {
+					if si.o.res == "bad-op" {
+						continue
+					}
+					for _, e := range si.o.evs {
+						if e.peer == p {
+							parts = append(parts, e.cat+":"+si.o.evText(e))
+						}
+					}
+				}
+				if n := len(steps); n > 0 && steps[n-1].o.res != "bad-op" {
+					parts = append(parts, "final:"+stateOnly(steps[n-1].o.view(p, false)))
+				}
+				return strings.Join(parts, " ")
+			}
+			a, b := collect(full), collect(ref)
+			if a != b {
+				out.Fail("c10-late-close", "op %d `%s`: peer %d observes [%s]; had the message arrived after the notification: [%s]", i, strings.Join(op, " "), p, a, b)
+				return
 			}
 		}
 	}
@@ -1282,9 +1364,20 @@ func genCase(r *rand.Rand, w *bufio.Writer, name string, foreignRate int) {
 			case k < 55:
 				g.emit("sent %d %d", v.p, v.streamOrd)
 				delete(g.live, v.id)
-			case k < 75:
+			case k < 67:
 				g.emit("neterr %d %d", v.p, v.streamOrd)
 				delete(g.live, v.id)
+			case k < 75:
+				// the send failure is reported while another peer's request re-using the ID arrives
+				q := (v.p + 1 + r.Intn(nPeers-1)) % nPeers
+				total := 1 + r.Intn(maxChain)
+				rh := []string{"ok", "ok", "pa", "rj"}[r.Intn(4)]
+				g.emit("neterrw %d %d %d n:%d:%d:%s:%s", v.p, v.streamOrd, q, v.id, total, rh, g.bhTok(total))
+				delete(g.live, v.id)
+				nv := &gresp{id: v.id, p: q, total: total, streamOrd: g.nstream[q]}
+				g.nstream[q]++
+				nv.state = map[string]string{"ok": "q", "pa": "p", "rj": "c"}[rh]
+				g.live[v.id] = nv
 			case k < 85:
 				g.emit("msg %d c:%d", v.p, v.id)
 			case k < 92:
